@@ -69,6 +69,20 @@ class C10(Oracle):
 
     def segment_end(self, op):
         R = self.R
+        if op[0] == "time":
+            # every stream's next arrival (the running sum of ALL samples drawn so far) lies at or beyond the horizon
+            for key, calls in R.log.samples.items():
+                if key[0] != "arr" or not calls:
+                    continue
+                s = calls[0][3]
+                if self.exact:
+                    s = Decimal(str(s))
+                for c in calls[1:]:
+                    s = self.add(s, c[3])
+                if len(calls) != len(self.arr_events.get((key[1], key[2]), [])) + 1:
+                    self.fail("inter-arrival-draw-count", "stream %r: %d samples drawn for %d arrival events" % (key[1:], len(calls), len(self.arr_events.get((key[1], key[2]), []))))
+                if s < op[1]:
+                    self.fail("due-arrival-never-happened", "stream %r: next arrival due at %r (sum of its samples) but the run reached %r without it" % (key[1:], s, op[1]))
         f = R.feats
         if "preempt" in f or "schedpre" in f or "slotpre" in f:
             return
